@@ -113,6 +113,8 @@ pub struct Driver {
     /// per-mille chance per step that the application breaks its contract (releases an id an exchange still owns, or
     /// reuses such an id in another packet); afterwards only the unconditional rules are judged (Sink::misused)
     pub misuse_pm: u64,
+    /// per-mille chance that a client starts its next CONNECT right after a close request, without notify_closed()
+    pub skip_close_pm: u64,
 }
 
 const TOPICS: [&str; 6] = ["a", "b", "c/d", "a", "b", "e/f/g"];
@@ -145,6 +147,7 @@ impl Driver {
             multi_frame_pct: 0,
             path_flip: true,
             misuse_pm: 0,
+            skip_close_pm: 0,
         }
     }
     fn bump(&mut self, k: &str) {
@@ -981,6 +984,15 @@ impl Driver {
             } else {
                 self.feed_pkt(&p);
             }
+            return;
+        }
+        if self.close_pending && self.skip_close_pm > 0 && self.sc.as_client && self.model.status == St::D && self.r.below(1000) < self.skip_close_pm {
+            // the application reconnects on a new transport and never tells the library that the old one is gone
+            self.sink.skipped_close = true;
+            *self.counters.entry("reconnects_without_notify_closed".into()).or_insert(0) += 1;
+            self.close_pending = false;
+            let p = self.connect_pkt();
+            self.send(p);
             return;
         }
         if self.close_pending {
